@@ -19,16 +19,24 @@ func pt() bool {
 		vsched.Point()
 		return true
 	}
+	vsched.Chaos() // free-running: widen the window before the operation (no-op unless chaos is switched on)
 	return false
 }
 
 func lg(on bool, kind string, addr unsafe.Pointer, a, b, r uint64, ln, cp int, ok bool) {
+	if !on {
+		vsched.Chaos() // … and after it
+		return
+	}
 	if on {
 		o := 0
 		if ok {
 			o = 1
 		}
 		vsched.Logf("ev %d %s %s %x %x %x %x %x %x %d\n", vsched.Tid(), Layer, kind, uintptr(addr), a, b, r, ln, cp, o)
+		if vsched.PostOp {
+			vsched.Point()
+		}
 	}
 }
 
